@@ -3,7 +3,7 @@
    about the real-number reading (instance RNum) of the model M_Coords.v, whose
    formulas are the regenerated kernels of gen/G_coords.v.  `e` is the (unused)
    erf parameter of the instance. *)
-From Coq Require Import Reals ZArith Lra SpecFloat.
+From Coq Require Import Reals ZArith List Lra SpecFloat.
 From Sky Require Import Num NumR G_coords M_Coords S_Coords P_Coords_Real P_Coords P_Coords_Rot P_Coords_Sky P_Coords_Astropy M_CoordsSF.
 Open Scope R_scope.
 
@@ -296,6 +296,22 @@ Theorem C19_rses_astropy_all_latitudes :
 Proof. exact rses_ap_all_latitudes. Qed.
 Print Assumptions C19_rses_astropy_all_latitudes.
 
+(* signal_event_post_sampling_processing (the caller of rotate_signal_events_on_sphere),
+   read per event: an event sampled for source number k is rotated onto
+   source_list[k] and keeps its separation with respect to ITS OWN source, whatever
+   other source indices occur in the draw (sparse, unordered, repeated) *)
+Theorem C19_post_sampling_own_source :
+  forall (e : R -> R) (srcs : list (R * R)) (evs : list (nat * (R * R) * (R * R))) i k
+         true_ra true_dec reco_ra reco_dec src_ra src_dec,
+  nth_error evs i = Some (k, (true_ra, true_dec), (reco_ra, reco_dec)) ->
+  nth_error srcs k = Some (src_ra, src_dec) ->
+  (1 / 1000000000000 <= cos src_dec \/ src_dec = PI / 2 \/ src_dec = - (PI / 2)) ->
+  exists out, nth_error (post_sampling_ap (RNum e) srcs evs) i = Some (Some out)
+    /\ angsep (RNum e) (fst out) (snd out) src_ra src_dec None = angsep (RNum e) reco_ra reco_dec true_ra true_dec None
+    /\ 0 <= fst out < 2 * PI /\ - (PI / 2) <= snd out <= PI / 2.
+Proof. exact post_sampling_ap_own_source. Qed.
+Print Assumptions C19_post_sampling_own_source.
+
 (* the code performs the rotation unconditionally: no `if`, a single `return` *)
 Theorem C19_rses_unconditional : rses_nif = 0%Z /\ rses_nreturn = 1%Z.
 Proof. exact (conj K_rses_nif K_rses_nreturn). Qed.
@@ -348,7 +364,7 @@ Theorem C19_statement_skeletons_pinned :
   sh_angular_separation = true /\ sh_rotate_spherical_vector = true /\ sh_rotate_signal_events_on_sphere = true
   /\ sh_azi_to_ra_transform = true /\ sh_ra_to_azi_transform = true /\ sh_hor_to_equ_transform = true
   /\ sh_psi_to_dec_and_ra = true /\ sh_tdm_field_func_psi = true /\ sh_get_tdm_field_func_psi = true
-  /\ sh_signalpdf_calculate_pd = true.
+  /\ sh_signalpdf_calculate_pd = true /\ sh_post_sampling_processing = true.
 Proof. repeat split; reflexivity. Qed.
 Print Assumptions C19_statement_skeletons_pinned.
 
